@@ -123,6 +123,7 @@ var whitelist = []FuncSpec{
 	{"pkg/provider", "", "createRedirectSignature", ""},
 	{"pkg/provider/serviceprovider", "", "getSigningCertsFromMetadata", ""},
 	{"pkg/provider/serviceprovider", "", "NewServiceProvider", ""},
+	{Pkg: "pkg/provider", Recv: "IdentityProvider", Name: "certificateHandleFunc"},
 	{Pkg: "pkg/provider", Name: "hostFromForwarded"},
 	{Pkg: "pkg/provider", Name: "issuerFromForwardedOrHost", Part: "validate"},
 	{Pkg: "pkg/provider", Name: "issuerFromForwardedOrHost", Part: "derive"},
@@ -487,6 +488,9 @@ func (w *world) leanType(t types.Type) string {
 			return "Int"
 		}
 	case *types.Pointer:
+		if tt.String() == "*bytes.Buffer" {
+			return "Lib.Bytes" // a local buffer is the bytes written to it so far
+		}
 		return "(Option " + w.leanType(tt.Elem()) + ")"
 	case *types.Slice:
 		if b, ok := tt.Elem().(*types.Basic); ok && b.Kind() == types.Byte {
@@ -1419,6 +1423,15 @@ func (c *tctx) effectCall(e ast.Expr) (v val, ok bool) {
 			return val{}, false
 		}
 	}
+	// w.Header().Set(name, value): a header of the reply
+	if inner, isCall := sel.X.(*ast.CallExpr); isCall && sel.Sel.Name == "Set" && len(x.Args) == 2 {
+		if isel, ok := inner.Fun.(*ast.SelectorExpr); ok && isel.Sel.Name == "Header" && c.info.TypeOf(isel.X) != nil && c.info.TypeOf(isel.X).String() == "net/http.ResponseWriter" {
+			k := c.expr(x.Args[0])
+			v := c.expr(x.Args[1])
+			reg("setHeader", []string{"String", "String"})
+			return val{e: fmt.Sprintf("(Eff.setHeader %s %s)", k.e, v.e), g: append(k.g, v.g...)}, true
+		}
+	}
 	if sl := c.info.Selections[sel]; sl != nil && sl.Kind() == types.FieldVal {
 		// a callback stored in a struct field (Response.ErrorFunc): its call is an effect named after the field
 		if sig, ok := sl.Obj().Type().Underlying().(*types.Signature); ok && sig.Results().Len() == 0 {
@@ -1953,6 +1966,74 @@ func (c *tctx) assign(s *ast.AssignStmt, rest []ast.Stmt, ind string) string {
 	if tok != ":=" && tok != "=" {
 		panic("unsupported assignment operator " + tok)
 	}
+	if len(s.Rhs) == 1 {
+		if call, ok := s.Rhs[0].(*ast.CallExpr); ok {
+			if sel, ok := call.Fun.(*ast.SelectorExpr); ok {
+				if id, ok := sel.X.(*ast.Ident); ok {
+					if pn, ok := c.info.Uses[id].(*types.PkgName); ok {
+						full := pn.Imported().Path() + "." + sel.Sel.Name
+						// err := pem.Encode(buf, &pem.Block{Type: t, Bytes: b}): the encoder is a library oracle, the local
+						// buffer grows by what it wrote
+						if full == "encoding/pem.Encode" && len(s.Lhs) == 1 && len(call.Args) == 2 {
+							bufId, isId := call.Args[0].(*ast.Ident)
+							var lit *ast.CompositeLit
+							if u, ok := call.Args[1].(*ast.UnaryExpr); ok {
+								lit, _ = u.X.(*ast.CompositeLit)
+							}
+							if isId && lit != nil && c.info.TypeOf(bufId).String() == "*bytes.Buffer" {
+								ty, by := "\"\"", "[]"
+								var g []string
+								for _, el := range lit.Elts {
+									kv := el.(*ast.KeyValueExpr)
+									v := c.expr(kv.Value)
+									g = append(g, v.g...)
+									switch kv.Key.(*ast.Ident).Name {
+									case "Type":
+										ty = v.e
+									case "Bytes":
+										by = v.e
+									default:
+										panic("pem.Block with a field other than Type / Bytes")
+									}
+								}
+								bn := c.locals[c.info.Uses[bufId]]
+								o := c.oracle("pemEncode", "String → Lib.Bytes → Lib.Bytes × Err", "pem.Encode(buffer, &pem.Block{Type, Bytes}): (what it wrote, its error) (library, not translated)")
+								out := fmt.Sprintf("%slet t_ := (%s %s %s);\n%slet s := { s with %s := s.%s ++ t_.1 };\n", ind, o, ty, by, ind, bn, bn)
+								if n := lhsName(s.Lhs[0], nil); n != "" {
+									out += fmt.Sprintf("%slet s := { s with %s := t_.2 };\n", ind, n)
+								}
+								return guardWrap(g, ind, out+c.stmts(rest, ind))
+							}
+						}
+						// _, err = io.Copy(w, buf): the bytes of the local buffer are written to the client (effect), the error is
+						// the write oracle's
+						if full == "io.Copy" && len(s.Lhs) == 2 && len(call.Args) == 2 && isIgnoredType(c.info.TypeOf(call.Args[0])) && c.hasEff {
+							if bufId, ok := call.Args[1].(*ast.Ident); ok && c.info.TypeOf(bufId).String() == "*bytes.Buffer" {
+								bn := c.locals[c.info.Uses[bufId]]
+								if _, has := c.w.effs["writeBody"]; !has {
+									c.w.effs["writeBody"] = []string{"Lib.Bytes"}
+									c.w.effOrd = append(c.w.effOrd, "writeBody")
+								}
+								o := c.oracle("writeErr", "String → Nat → Err", "the error a write to the client returns (xml.Write, template.Execute), by calling function and call site")
+								k := c.writeSites
+								c.writeSites++
+								out := fmt.Sprintf("%slet s := { s with eff_ := s.eff_ ++ [(Eff.writeBody s.%s)] };\n", ind, bn)
+								if n := lhsName(s.Lhs[0], nil); n != "" {
+									out += fmt.Sprintf("%slet s := { s with %s := (Lib.goLen s.%s) };\n", ind, n, bn)
+								}
+								if n := lhsName(s.Lhs[1], nil); n != "" {
+									out += fmt.Sprintf("%slet s := { s with %s := (%s %s %d) };\n", ind, n, o, leanStr(c.f.lean), k)
+								}
+								// the buffer is drained by the copy
+								out += fmt.Sprintf("%slet s := { s with %s := [] };\n", ind, bn)
+								return out + c.stmts(rest, ind)
+							}
+						}
+					}
+				}
+			}
+		}
+	}
 	if len(s.Rhs) == 1 && len(s.Lhs) == 1 {
 		if eff, res, ok := c.effectResultCall(s.Rhs[0]); ok {
 			n := lhsName(s.Lhs[0], nil)
@@ -2080,6 +2161,9 @@ func (c *tctx) nilOf(t types.Type) string {
 	}
 	switch t.Underlying().(type) {
 	case *types.Pointer:
+		if t.String() == "*bytes.Buffer" {
+			return "[]"
+		}
 		return "none"
 	case *types.Slice, *types.Map:
 		return "[]"
@@ -2527,6 +2611,11 @@ func (c *tctx) call(x *ast.CallExpr) val {
 		obj := c.info.Uses[fun]
 		if _, ok := obj.(*types.Builtin); ok {
 			switch fun.Name {
+			case "new":
+				if t := c.info.TypeOf(x); t != nil && t.String() == "*bytes.Buffer" {
+					return val{e: "([] : Lib.Bytes)"}
+				}
+				panic("unsupported new(" + c.src(x.Args[0]) + ")")
 			case "len":
 				v := c.expr(x.Args[0])
 				t := c.info.TypeOf(x.Args[0])
@@ -2900,6 +2989,11 @@ func (c *tctx) methodCall(fun *ast.SelectorExpr, x *ast.CallExpr) val {
 		case "DecodeString":
 			return val{e: fmt.Sprintf("(let r_ := Lib.b64decode %s; (r_.getD [], (if r_.isSome then (none : Err) else some \"base64\")))", es[0]), g: g}
 		}
+	case rs == "net/http.Header" && name == "Get":
+		// r.Header.Get(name) of the request being served
+		if hs, ok := fun.X.(*ast.SelectorExpr); ok && hs.Sel.Name == "Header" && isIgnoredType(c.info.TypeOf(hs.X)) {
+			return val{e: fmt.Sprintf("(%s %s)", c.oracle("headerGet", "String → String", "r.Header.Get(name) of the request being served"), es[0]), g: g}
+		}
 	case rs == "*net/http.Request" && name == "ParseForm":
 		return val{e: c.oracle("m_ParseForm", "Err", "(*http.Request).ParseForm"), g: g}
 	case rs == "*net/http.Request" && name == "FormValue":
@@ -3012,6 +3106,9 @@ func (w *world) structOrder() []*structInfo {
 func (w *world) structDeps(t types.Type) []string {
 	switch tt := t.(type) {
 	case *types.Pointer:
+		if tt.String() == "*bytes.Buffer" {
+			return nil
+		}
 		return w.structDeps(tt.Elem())
 	case *types.Slice:
 		return w.structDeps(tt.Elem())
